@@ -593,7 +593,7 @@ def _space(ts):
 # ------------------------------------------------------------------ rule H / L
 class Hoist:
     def __init__(self, fields=(), thread=(), fx=(), fxarg="&mut st.fx", st="st", stparam="st: &mut SessionState",
-                 locks=None, elide=None, aliases=None, nolock=()):
+                 locks=None, elide=None, aliases=None, nolock=(), count_acq=()):
         self.fields = set(fields)     # hoisted field names: self.F -> st.F
         self.thread = set(thread)     # self.m(..) -> self.m(.., st)
         self.fx = set(fx)             # x.m(..) -> x.m(.., &mut st.fx) for foreign effectful methods
@@ -604,6 +604,7 @@ class Hoist:
         self.elide = elide or {}      # lock elision of a foreign guard:  "reader_mutex" -> "rd"
         self.aliases = aliases or {}  # foreign lock path "heartbeat_state.last_received" -> hoisted field name
         self.nolock = set(nolock)     # hoisted fields that are atomics (no guard, no lock flag)
+        self.count_acq = set(count_acq)  # locks whose acquisitions are counted in ghost state st.acq_F (one hold per operation obligations)
         self.acq = {}                 # filled by the assembler: method -> {field: mode}
         self.direct = {}              # collected: fn -> {field: mode}
         self.calls = {}               # collected: fn -> set(methods called on self)
@@ -624,6 +625,10 @@ def _block_end(toks, k):
                 return k
             depth -= 1
         k += 1
+
+
+def collect_only_flag(lockflags, fname):
+    return False
 
 
 def rule_H(toks, au, h, lockflags=False, fname=None):
@@ -680,6 +685,9 @@ def rule_H(toks, au, h, lockflags=False, fname=None):
                         new += _ghost(f"proof {{ vx_held_{F} = {mode}int; }}", toks[i].ws)
                         if F not in held:
                             held.append(F)
+                    if F in h.count_acq and not collect_only_flag(lockflags, fname):
+                        new += _ghost(f"proof {{ {st}.acq_{F} = {st}.acq_{F} + 1; }}", toks[i].ws if not flag else " ")
+                        au.note("L", f"ghost acquisition counter {st}.acq_{F} += 1")
                     m = e + 1
                     while m < scope_end:
                         tt = toks[m]
